@@ -162,9 +162,9 @@ def exOps : List HOp :=
   [ .seg (exSeg 4 2 false false) 1 .none {} 0,                 -- queued before the start
     .seg (exSeg 0 0 true false) 1 .none {} 0,                  -- SYN
     .seg (exSeg 0 3 false false) 1 (.fromEnd 1) {} 0,          -- in order, stream keeps 1 byte
-    .seg (exSeg 2 3 false false) 1 .none {} 0,                 -- overlaps delivered and queued data
-    .skipFlush .none 0,
-    .seg (exSeg 6 2 false true) 1 .none {} 0 ]                 -- FIN
+    .seg (exSeg 1 3 false false) 1 (.abs 0) {} 0,              -- overlapping retransmission, brings byte 3
+    .seg (exSeg 7 1 false true) 1 .none {} 0,                  -- FIN, queued (byte 6 is missing)
+    .skipFlush .none 0 ]                                       -- flush: the gap is announced
 
 example : ∀ op ∈ exOps, op.OK exS exI := by
   intro op hop
@@ -177,11 +177,12 @@ example : ∀ op ∈ exOps, op.OK exS exI := by
        | exact ⟨0, by decide, by decide, by decide⟩
        | exact ⟨2, by decide, by decide, by decide⟩
        | exact ⟨4, by decide, by decide, by decide⟩
-       | exact ⟨6, by decide, by decide, by decide⟩)
+       | exact ⟨1, by decide, by decide, by decide⟩
+       | exact ⟨7, by decide, by decide, by decide⟩)
 
 example : (match hrun Arith.real {} (exOps.map HOp.wrap) with
-    | .ok (_, sgs) => sgs.map (fun g => (g.skip, g.saved, g.new))
+    | .ok (_, sgs) => sgs.map (fun (g : SG) => (g.skip, g.saved, g.new))
     | _ => []) =
-    [(0, [], []), (0, [], [1, 2, 3]), (0, [3], [4, 5, 6]), (0, [], [7, 8])] := by decide
+    [(0, [], []), (0, [], [1, 2, 3]), (0, [3], [4, 5, 6]), (1, [], [8])] := by decide
 
 end Gp.C09
